@@ -42,6 +42,14 @@ type LiveConfig struct {
 	Crasher     int
 	JoinAfter   int64
 	GossipBound int64 // late join: bound on vote-gossip iterations until the late joiner has committed JoinAfter heights
+	// hand-over: these validators start the way a node with fast_sync=true does - the consensus
+	// reactor waits in fast-sync mode and the consensus state is started by the real
+	// SwitchToConsensus event (what the block-sync reactor fires when it has caught up), not by
+	// the reactor's OnStart. The others start directly.
+	Handover []int
+	// the proposer of height 1, round 0 never proposes (overrides Silent): the first height, the
+	// one the handed-over validators entered through SwitchToConsensus, needs a round change
+	SilentFirstProposer bool
 }
 
 type LiveResult struct {
@@ -80,6 +88,18 @@ func RunLive(cfg LiveConfig) LiveResult {
 	for i := 0; i < cfg.N; i++ {
 		keys[i] = crypto.GenPrivKeyEd25519FromSecret([]byte(fmt.Sprintf("%s-live-%d", cfg.Label, i)))
 		gen.Validators = append(gen.Validators, types.GenesisValidator{PubKey: keys[i].PubKey(), Amount: cfg.Powers[i], Name: fmt.Sprintf("n%d", i), IsCA: true})
+	}
+	if cfg.SilentFirstProposer {
+		first := sm.MakeGenesisState(NewDiskDB(), gen).Validators.Proposer()
+		for i := 0; i < cfg.N; i++ {
+			if first != nil && bytes.Equal(keys[i].PubKey().Address(), first.Address) {
+				cfg.Silent = i
+			}
+		}
+	}
+	handover := map[int]bool{}
+	for _, i := range cfg.Handover {
+		handover[i] = true
 	}
 	var mtx sync.Mutex
 	var gossipIters int64
@@ -133,7 +153,7 @@ func RunLive(cfg LiveConfig) LiveResult {
 		pool := &MockPool{node: i, TxsPer: 2}
 		cs := pbft.NewConsensusState(c, st, store, pool)
 		cs.SetPrivValidator(pv)
-		conR := pbft.NewConsensusReactor(cs, false)
+		conR := pbft.NewConsensusReactor(cs, handover[i])
 		cs.BindReactor(conR)
 		app := &MockApp{AppHash: []byte{}}
 		evsw := types.NewEventSwitch()
@@ -201,6 +221,11 @@ func RunLive(cfg LiveConfig) LiveResult {
 		}
 		p2p.Connect2Switches(sws, i, j)
 	})
+	for i := range nodes {
+		if handover[i] {
+			types.FireEventSwitchToConsensus(nodes[i].evsw)
+		}
+	}
 	if late {
 		go func() {
 			for {
